@@ -146,6 +146,15 @@ Section PencilRot.
       apply embedding_rotation_invariant. assumption.
   Qed.
 
+  (* centring commutes with the rotation *)
+  Lemma centred_rotation D N (R X : mat F) f s :
+    centred (mmul D R X) N f s = mmul D R (centred X N) f s.
+  Proof.
+    unfold centred. change (compute_mean0 (mmul D R X) N f) with (compute_mean (mmul D R X) N f).
+    rewrite mean_rotation. unfold mmul, mv. rewrite <- sumn_sub.
+    apply sumn_ext. intros u _. unfold compute_mean. ring.
+  Qed.
+
   (* pencils of the rotated data = conjugated pencils (reference objects) *)
   Theorem pencils_conjugate D N (R X : mat F) (W : sparse F) (dv : vec F) i j :
     npe_lhs N (mmul D R X) W i j = conj_by D R (npe_lhs N X W) i j /\
@@ -154,7 +163,11 @@ Section PencilRot.
     lltsa_rhs N (mmul D R X) i j = conj_by D R (lltsa_rhs N X) i j /\
     lpp_lhs N (mmul D R X) W i j = conj_by D R (lpp_lhs N X W) i j /\
     lpp_rhs N (mmul D R X) dv i j = conj_by D R (lpp_rhs N X dv) i j.
-  Proof. repeat split; apply XMXt_rot. Qed.
+  Proof.
+    repeat split; try apply XMXt_rot.
+    unfold lltsa_lhs. rewrite <- XMXt_rot. apply XMXt_ext_X.
+    intros f s _. apply centred_rotation.
+  Qed.
 
   (* ---------------- translation ---------------- *)
   Definition shift_by (X : mat F) (c : vec F) : mat F := fun f s => X f s + c f.
@@ -199,19 +212,55 @@ Section PencilRot.
     - rewrite Hc, Hr by assumption. ring.
   Qed.
 
-  (* with F25 repaired the LLTSA pencil does not depend on the origin of the feature space *)
-  Theorem lltsa_fixed_translation_invariant N (X : mat F) (W : sparse F) (c : vec F) i j :
+  (* between F25 and F42 the LLTSA pencil was translation invariant only for W with zero sums *)
+  Theorem lltsa_f25_translation_invariant N (X : mat F) (W : sparse F) (c : vec F) i j :
     indices_ok N W -> zero_sums N (dense_of W) -> of_nat N <> 0 ->
     p_lhs (lltsa_fixed (shift_by X c) N W) i j = p_lhs (lltsa_fixed X N W) i j /\
     p_rhs (lltsa_fixed (shift_by X c) N W) i j = p_rhs (lltsa_fixed X N W) i j.
   Proof.
     intros Hok Hz HN.
-    destruct (lltsa_problem_gen (S (i + j)) N (shift_by X c) W Hok) as [HA' HB'].
-    destruct (lltsa_problem_gen (S (i + j)) N X W Hok) as [HA HB].
+    destruct (lltsa_f25_pencil_gen (S (i + j)) N (shift_by X c) W Hok) as [HA' HB'].
+    destruct (lltsa_f25_pencil_gen (S (i + j)) N X W Hok) as [HA HB].
     rewrite (HA' i j), (HB' i j), (HA i j), (HB i j) by lia.
-    unfold lltsa_lhs, lltsa_rhs. split; apply XMXt_translation.
+    unfold lltsa_lhs_f25, lltsa_rhs. split; apply XMXt_translation.
     - apply sym2_zero_sums. assumption.
     - apply Jn_zero_sums. assumption.
+  Qed.
+
+  (* centring removes a translation *)
+  Lemma centred_shift N (X : mat F) (c : vec F) f s :
+    of_nat N <> 0 -> centred (shift_by X c) N f s = centred X N f s.
+  Proof.
+    intros HN. unfold centred. rewrite !compute_mean0_eq. unfold shift_by.
+    rewrite sumn_add, sumn_const. change (fun s0 : nat => X f s0) with (X f). field. assumption.
+  Qed.
+
+  (* CURRENT code (after F42): the LLTSA pencil does not depend on the origin of the feature
+     space, for EVERY sparse matrix W (nullspace shift on its diagonal included) *)
+  Theorem lltsa_centred_translation_invariant N (X : mat F) (W : sparse F) (c : vec F) i j :
+    indices_ok N W -> of_nat N <> 0 ->
+    p_lhs (lltsa_centred (shift_by X c) N W) i j = p_lhs (lltsa_centred X N W) i j /\
+    p_rhs (lltsa_centred (shift_by X c) N W) i j = p_rhs (lltsa_centred X N W) i j.
+  Proof.
+    intros Hok HN.
+    destruct (lltsa_problem_gen (S (i + j)) N (shift_by X c) W HN Hok) as [HA' HB'].
+    destruct (lltsa_problem_gen (S (i + j)) N X W HN Hok) as [HA HB].
+    rewrite (HA' i j), (HB' i j), (HA i j), (HB i j) by lia.
+    split.
+    - unfold lltsa_lhs. apply XMXt_ext_X. intros f s _. apply centred_shift. assumption.
+    - unfold lltsa_rhs. apply XMXt_translation. apply Jn_zero_sums. assumption.
+  Qed.
+
+  (* the lhs on centred features IS the property's X M X^T whenever the rows and columns of M
+     sum to zero (what an alignment matrix does) *)
+  Theorem lltsa_lhs_is_XMXt N (X : mat F) (W : sparse F) i j :
+    zero_sums N (dense_of W) ->
+    lltsa_lhs N X W i j = XMXt N X (sym2 (dense_of W)) i j.
+  Proof.
+    intros Hz. unfold lltsa_lhs.
+    rewrite <- (XMXt_translation N X (sym2 (dense_of W)) (fun f => - compute_mean0 X N f) i j)
+      by (apply sym2_zero_sums; assumption).
+    apply XMXt_ext_X. intros f s _. unfold centred, shift_by. ring.
   Qed.
 
 End PencilRot.
